@@ -1,5 +1,6 @@
 import ShredModel.Lemmas.Scenario
 import ShredModel.Lemmas.NestedTop
+import ShredModel.Lemmas.SeqTrace
 /-!
 # C04 — exactly once
 
@@ -78,8 +79,56 @@ theorem C04_only_registered (l : List (Ev SysTag)) (hl : Traces sc.plan l) (e : 
 end Scenario
 end Shred
 
+
+namespace Shred
+namespace Scenario
+variable (sc : Scenario)
+
+/-- **C04 (`dispatch_par` / `dispatch_seq` run exactly the staged systems).** -/
+theorem C04_staged_only (l : List (Ev SysTag)) (hl : Traces (stagesTask sc.final.b.stages) l) (x : SysTag) :
+    (x < sc.final.n → l.count (Ev.F x) = 1 ∧ l.count (Ev.D x) = 1) ∧
+    (¬ x < sc.final.n → l.count (Ev.F x) = 0 ∧ l.count (Ev.D x) = 0) := by
+  obtain ⟨z, hz⟩ := sc.good
+  have hnd := nodup_dispatchTask hz [] List.nodup_nil (fun _ h => by cases h)
+  rw [sys_dispatchTask, List.append_nil] at hnd
+  have hsys : (stagesTask sc.final.b.stages).sys = sc.final.b.stages.flatten.flatten := sys_stagesTask _
+  have hmem : x ∈ sc.final.b.stages.flatten.flatten ↔ x < sc.final.n := by
+    rw [stages_eq_of_zips hz.zips, flatten_sys_eq_allIds hz]
+    constructor
+    · intro h
+      have hc := List.count_pos_iff.mpr h
+      rw [hz.ids] at hc
+      split at hc <;> omega
+    · intro h
+      apply List.count_pos_iff.mp
+      rw [hz.ids x]; simp [h]
+  constructor
+  · intro hx
+    exact traces_once hl (by rw [hsys]; exact hnd) x (by rw [hsys]; exact hmem.mpr hx)
+  · intro hx
+    have hns : x ∉ (stagesTask sc.final.b.stages).sys := by rw [hsys]; exact fun h => hx (hmem.mp h)
+    exact ⟨count_zero_of_not_sys hl (.F x) hns, count_zero_of_not_sys hl (.D x) hns⟩
+
+/-- **C04 (`dispatch_thread_local` runs exactly the thread-local systems, in order).** -/
+theorem C04_thread_local_only (l : List (Ev SysTag))
+    (hl : Traces (Task.seqN (sc.tl.map Task.leaf)) l) : l = sc.tl.flatMap fun t => [Ev.F t, Ev.D t] := by
+  have hn : (Task.seqN (sc.tl.map Task.leaf)).NoPar := by
+    apply noPar_seqN
+    intro t ht
+    obtain ⟨x, _, rfl⟩ := List.mem_map.mp ht
+    trivial
+  rw [traces_noPar hl hn, seqTrace_seqN]
+  induction sc.tl with
+  | nil => rfl
+  | cons t tl ih => simp [List.flatMap_cons, Task.seqTrace, ih]
+
+end Scenario
+end Shred
+
 #print axioms Shred.Scenario.C04_exactly_once
 #print axioms Shred.C04_exactly_once_nested
 #print axioms Shred.C04_batch_instances
 #print axioms Shred.Scenario.C04_repeated
 #print axioms Shred.Scenario.C04_only_registered
+#print axioms Shred.Scenario.C04_staged_only
+#print axioms Shred.Scenario.C04_thread_local_only
